@@ -37,7 +37,9 @@ func TypeName(t uint16) string {
 
 // Request builds the query message of client c for q.
 func Request(q Query, c Client) *dns.Msg {
-	m := dnsfix.Query(q.Name, q.Type)
+	// built by hand: dns.Msg.SetQuestion draws a random id (one getrandom system call per query)
+	m := &dns.Msg{Question: []dns.Question{{Name: dns.Fqdn(q.Name), Qtype: q.Type, Qclass: dns.ClassINET}}}
+	m.Id = 4242
 	if c.ECS {
 		dnsfix.WithECS(m, c.Family, c.SrcLen, c.Addr)
 	}
